@@ -398,62 +398,79 @@ func checkC08(r *core.Run) {
 	}
 	// T-claim
 	if fn := r.Func("T-claim", "node/keeper.msgServer.ClaimReward"); fn != nil {
-		res := r.Resolver(fn)
-		okRem := false
-		var remStore *ssa.Store
-		for _, b := range fn.Blocks {
-			for _, ins := range b.Instrs {
-				if st, ok := ins.(*ssa.Store); ok {
-					if fa, ok := st.Addr.(*ssa.FieldAddr); ok && shortTypeName(fa.X.Type())+"."+fieldNameT(fa.X.Type(), fa.Field) == "node/types.Pledge.Reward" {
-						vt := normT(res.Of(st.Val).String())
-						if strings.HasPrefix(vt, "sdk.DecCoin.TruncateDecimal(") && strings.HasSuffix(vt, ".Reward)#1") {
-							okRem = true
-							remStore = st
-						}
+		// typestate walk (through helpers outside the vocabulary):
+		//   split   : TruncateDecimal(pledge.Reward) — the point where the reward is divided into the part to pay
+		//             (or to write off against debt) and the fractional remainder
+		//   assign  : Pledge.Reward := that remainder
+		//   persist : SetPledge
+		//   success : a success return of ClaimReward
+		// after a split, every success return must have passed assign and then persist
+		const (
+			split = 1 << iota
+			assigned
+			persisted
+		)
+		events := func(f *ssa.Function, ins ssa.Instruction, T func(ssa.Value) string) []string {
+			switch x := ins.(type) {
+			case *ssa.Store:
+				if fa, ok := x.Addr.(*ssa.FieldAddr); ok && shortTypeName(fa.X.Type())+"."+fieldNameT(fa.X.Type(), fa.Field) == "node/types.Pledge.Reward" {
+					vt := normT(T(x.Val))
+					if strings.HasPrefix(vt, "sdk.DecCoin.TruncateDecimal(") && strings.HasSuffix(vt, ".Reward)#1") {
+						return []string{"assign"}
 					}
+					return []string{"otherassign"}
+				}
+			case ssa.CallInstruction:
+				n, _ := r.Resolver(f).CalleeName(x.Common())
+				if n == "sdk.DecCoin.TruncateDecimal" && len(x.Common().Args) == 1 && strings.HasSuffix(normT(T(x.Common().Args[0])), ".Reward") {
+					return []string{"split"}
+				}
+				if n == "node/keeper.Keeper.SetPledge" {
+					return []string{"persist"}
+				}
+			case *ssa.Return:
+				if f == fn && successReturnIn(r, fn, x.Block()) {
+					return []string{"success"}
 				}
 			}
+			return nil
 		}
-		if remStore != nil {
-			// the reduced reward is written back on every success path (whatever is paid out or written off against debt)
-			key := core.Key("T-claim", "node/keeper.msgServer.ClaimReward", "remainder persisted on every success path")
-			setB := map[*ssa.BasicBlock]bool{}
-			sameBlockAfter := false
-			for _, c := range callsIn(r, fn, "node/keeper.Keeper.SetPledge") {
-				if c.Block() == remStore.Block() {
-					after := false
-					for _, ins := range c.Block().Instrs {
-						if ins == ssa.Instruction(remStore) {
-							after = true
-						}
-						if ins == c.(ssa.Instruction) && after {
-							sameBlockAfter = true
-						}
-					}
-					continue
+		t := &tsRule{r: r, events: events, step: func(st uint8, ev string) (uint8, string) {
+			switch ev {
+			case "split":
+				return split, ""
+			case "assign":
+				if st&split != 0 {
+					return (st | assigned) &^ persisted, ""
 				}
-				setB[c.Block()] = true
-			}
-			var bad []*ssa.BasicBlock
-			succ := successBlocks(r, fn)
-			if !sameBlockAfter {
-				bad = forwardAvoid(remStore.Block(), setB, nil, func(b *ssa.BasicBlock) bool { return succ[b] })
-			}
-			// ... and that assignment itself lies on every success path from the point where the reward was split
-			// into the part to pay and the remainder (not only on the paths that pay out coins)
-			if ex, ok := remStore.Val.(*ssa.Extract); ok && bad == nil {
-				if tr, ok := ex.Tuple.(*ssa.Call); ok && tr.Block() != remStore.Block() {
-					bad = forwardAvoid(tr.Block(), map[*ssa.BasicBlock]bool{remStore.Block(): true}, nil, func(b *ssa.BasicBlock) bool { return succ[b] })
+			case "otherassign":
+				return st &^ (assigned | persisted), ""
+			case "persist":
+				if st&assigned != 0 {
+					return st | persisted, ""
+				}
+			case "success":
+				if st&split != 0 && (st&assigned == 0 || st&persisted == 0) {
+					return st, "unpersisted"
 				}
 			}
-			if bad == nil {
-				r.Discharge("T-claim", key, r.P.Pos(remStore.Pos()), "every success return after Pledge.Reward := remainder passes SetPledge")
+			return st, ""
+		}}
+		res := t.run(fn, 0)
+		key := core.Key("T-claim", "node/keeper.msgServer.ClaimReward", "remainder persisted on every success path")
+		if res.counts["split"] > 0 {
+			if res.bad == "" {
+				r.Discharge("T-claim", key, r.P.FuncPos(fn), "after the reward is split, every success return has passed Pledge.Reward := remainder and then SetPledge")
 			} else {
-				r.Violate("T-claim", key, r.P.Pos(remStore.Pos()), "ClaimReward can succeed without writing the reduced reward back (SetPledge is skipped on some path, e.g. when the whole-coin part was used up against the provider's collateral debt): the same accrued reward can then be claimed, or written off against debt, again", pathDesc(r, bad))
+				pos := r.P.FuncPos(fn)
+				if res.badAt != nil {
+					pos = r.P.Pos(res.badAt.Pos())
+				}
+				r.Violate("T-claim", key, pos, "ClaimReward can succeed without writing the reduced reward back (the remainder is not assigned, or SetPledge is skipped, on some path after the reward was split — e.g. when the whole-coin part was used up against the provider's collateral debt): the same accrued reward can then be claimed, or written off against debt, again")
 			}
 		}
-		key := core.Key("T-claim", "node/keeper.msgServer.ClaimReward", "remainder persisted")
-		if okRem {
+		key = core.Key("T-claim", "node/keeper.msgServer.ClaimReward", "remainder persisted")
+		if res.counts["assign"] > 0 {
 			r.Discharge("T-claim", key, r.P.FuncPos(fn), "Pledge.Reward := TruncateDecimal(pledge.Reward)#1 (the fractional remainder)")
 		} else {
 			r.Violate("T-claim", key, r.P.FuncPos(fn), "after a claim the pledge does not keep exactly the fractional remainder of its reward: the claimed part could be claimed again")
@@ -520,162 +537,95 @@ func checkSettle(r *core.Run, fnName string) {
 	if fn == nil {
 		return
 	}
-	res := r.Resolver(fn)
-	isField := func(ins ssa.Instruction, path string) bool {
-		st, ok := ins.(*ssa.Store)
-		if !ok {
-			return false
-		}
-		return strings.HasSuffix(normT(res.Of(st.Addr).String()), path)
-	}
-	var change, settle, rebase, persist []ssa.Instruction
-	for _, b := range fn.Blocks {
-		for _, ins := range b.Instrs {
+	// An ordering property over four kinds of events, decided by a typestate walk that goes through helpers outside
+	// the vocabulary in place (the settlement, the capacity change and the re-basing are often helpers that receive
+	// a pointer to the pledge):
+	//   settle  : Reward.Amount += Acc*TotalStorage - RewardDebt   (or the edge on which TotalStorage <= 0)
+	//   change  : Pledge.TotalStorage +/-= ...
+	//   rebase  : RewardDebt.Amount := Acc*TotalStorage
+	//   persist : SetPledge
+	const (
+		settled = 1 << iota
+		changed
+		rebased
+	)
+	events := func(f *ssa.Function, ins ssa.Instruction, T func(ssa.Value) string) []string {
+		switch x := ins.(type) {
+		case *ssa.Store:
+			at := normT(T(x.Addr))
+			vt := normT(T(x.Val))
 			switch {
-			case isField(ins, ".TotalStorage") && strings.Contains(normT(res.Of(ins.(*ssa.Store).Addr).String()), "GetPledge"):
-				vt := res.Of(ins.(*ssa.Store).Val).String()
+			case strings.HasSuffix(at, ".TotalStorage") && strings.Contains(at, "GetPledge"):
 				if strings.Contains(vt, " + ") || strings.Contains(vt, " - ") {
-					change = append(change, ins)
+					return []string{"change"}
 				}
-			case isField(ins, ".Reward.Amount"):
-				settle = append(settle, ins)
-			case isField(ins, ".RewardDebt.Amount"):
-				rebase = append(rebase, ins)
+			case strings.HasSuffix(at, ".Reward.Amount"):
+				if strings.Contains(vt, "sdk.Dec.Sub(sdk.Dec.MulInt64(") && strings.Contains(vt, ".AccRewardPerByte.Amount,") && strings.Contains(vt, ".TotalStorage)") && strings.Contains(vt, ".RewardDebt.Amount)") {
+					return []string{"settle"}
+				}
+			case strings.HasSuffix(at, ".RewardDebt.Amount"):
+				if strings.HasPrefix(vt, "sdk.Dec.MulInt64(") && strings.Contains(vt, ".AccRewardPerByte.Amount,") && strings.HasSuffix(vt, ".TotalStorage)") {
+					return []string{"rebase"}
+				}
 			}
-			if c, ok := ins.(ssa.CallInstruction); ok {
-				if n, _ := res.CalleeName(c.Common()); n == "node/keeper.Keeper.SetPledge" {
-					persist = append(persist, ins)
-				}
+		case ssa.CallInstruction:
+			if n, _ := r.Resolver(f).CalleeName(x.Common()); n == "node/keeper.Keeper.SetPledge" {
+				return []string{"persist"}
 			}
 		}
+		return nil
 	}
-	// the settlement block may have been extracted into a helper (outside the rule vocabulary) that receives the
-	// pledge: the call settles if every path through the helper passes the settlement store of the right form or the
-	// "no capacity" edge
-	helperFormOK := false
-	for _, b := range fn.Blocks {
-		for _, ins := range b.Instrs {
-			c, ok := ins.(ssa.CallInstruction)
-			if !ok {
-				continue
-			}
-			h := c.Common().StaticCallee()
-			if h == nil || !r.P.Transparent(h) || len(h.Blocks) == 0 {
-				continue
-			}
-			hres := r.Resolver(h)
-			hk := &guard.Checker{P: r.P, Fn: h, Res: hres}
-			sb := map[*ssa.BasicBlock]bool{}
-			form := false
-			for _, hb := range h.Blocks {
-				for _, hi := range hb.Instrs {
-					if st, ok := hi.(*ssa.Store); ok && strings.HasSuffix(normT(hres.Of(st.Addr).String()), ".Reward.Amount") {
-						sb[hb] = true
-						vt := normT(hres.Of(st.Val).String())
-						if strings.Contains(vt, "sdk.Dec.Sub(sdk.Dec.MulInt64(") && strings.Contains(vt, ".AccRewardPerByte.Amount,") && strings.Contains(vt, ".TotalStorage)") && strings.Contains(vt, ".RewardDebt.Amount)") {
-							form = true
-						}
-					}
-				}
-			}
-			if len(sb) == 0 || !form {
-				continue
-			}
-			zc := hk.PassEdges([]guard.Atom{guard.Ge("0", "*.TotalStorage")})
-			if sb[h.Blocks[0]] || forwardAvoid(h.Blocks[0], sb, zc, isReturnBlock) == nil {
-				settle = append(settle, ins)
-				helperFormOK = true
-			}
-		}
-	}
-	if len(change) != 1 || len(persist) == 0 {
-		r.Undecide("T-settle", core.Key("T-settle", fnName, "sites"), r.P.FuncPos(fn), fmt.Sprintf("expected exactly one store to Pledge.TotalStorage and a SetPledge (found %d, %d)", len(change), len(persist)))
-		return
-	}
-	ch := change[0]
-	blocksOf := func(xs []ssa.Instruction) map[*ssa.BasicBlock]bool {
-		m := map[*ssa.BasicBlock]bool{}
-		for _, x := range xs {
-			m[x.Block()] = true
+	edges := func(ck *guard.Checker) map[cfgx.Edge]string {
+		m := map[cfgx.Edge]string{}
+		for e := range ck.PassEdges([]guard.Atom{guard.Ge("0", "*.TotalStorage")}) {
+			m[e] = "zerocap"
 		}
 		return m
 	}
-	before := func(a, b ssa.Instruction) bool { // same block: a earlier than b
-		for _, ins := range a.Block().Instrs {
-			if ins == a {
-				return true
-			}
-			if ins == b {
-				return false
-			}
-		}
-		return false
-	}
-	// 1. settlement precedes the change on every path, unless the pledge had no capacity (TotalStorage > 0 false edge)
-	ck := &guard.Checker{P: r.P, Fn: fn, Res: res}
-	zeroCap := ck.PassEdges([]guard.Atom{guard.Ge("0", "*.TotalStorage")})
-	sb := blocksOf(settle)
-	key := core.Key("T-settle", fnName, "pending reward settled before the capacity changes")
-	okPre := len(settle) > 0
-	if okPre {
-		if p := forwardAvoid(fn.Blocks[0], sb, zeroCap, func(b *ssa.BasicBlock) bool { return b == ch.Block() }); p != nil {
-			okPre = false
-		}
-		for _, s := range settle {
-			if s.Block() == ch.Block() && !before(s, ch) {
-				okPre = false
-			}
-		}
-	}
-	// the settlement uses the old capacity: pending = Acc*TotalStorage - RewardDebt
-	okForm := helperFormOK
-	for _, s := range settle {
-		sst, isStore := s.(*ssa.Store)
-		if !isStore {
-			continue
-		}
-		vt := normT(res.Of(sst.Val).String())
-		if strings.Contains(vt, "sdk.Dec.Sub(sdk.Dec.MulInt64(") && strings.Contains(vt, ".AccRewardPerByte.Amount,") && strings.Contains(vt, ".TotalStorage)") && strings.Contains(vt, ".RewardDebt.Amount)") {
-			okForm = true
-		}
-	}
-	if okPre && okForm {
-		r.Discharge("T-settle", key, r.P.Pos(ch.Pos()), "Reward.Amount += Acc*TotalStorage − RewardDebt on every path to the change (or the pledge had no capacity)")
-	} else {
-		r.Violate("T-settle", key, r.P.Pos(ch.Pos()), "Pledge.TotalStorage is changed on a path that has not first settled the pending reward at the old capacity (Reward += Acc×TotalStorage − RewardDebt): the provider's accrued share is computed with the wrong capacity")
-	}
-	// 2. re-basing follows the change before the pledge is persisted
-	key2 := core.Key("T-settle", fnName, "reward debt re-based after the capacity changes")
-	rb := blocksOf(rebase)
-	okPost := len(rebase) > 0
-	for _, pz := range persist {
-		if rb[ch.Block()] {
-			// same block: must come after the change
-			ok := false
-			for _, x := range rebase {
-				if x.Block() == ch.Block() && before(ch, x) {
-					ok = true
+	run := func(clause int) *tsResult {
+		t := &tsRule{r: r, events: events, edges: edges, step: func(st uint8, ev string) (uint8, string) {
+			switch ev {
+			case "settle", "zerocap":
+				return st | settled, ""
+			case "change":
+				msg := ""
+				if st&settled == 0 && clause == 1 {
+					msg = "unsettled"
+				}
+				return (st | changed) &^ rebased, msg
+			case "rebase":
+				return st | rebased, ""
+			case "persist":
+				if st&changed != 0 && st&rebased == 0 && clause == 2 {
+					return st, "not rebased"
 				}
 			}
-			if ok {
-				continue
-			}
-		}
-		if p := forwardAvoid(ch.Block(), rb, nil, func(b *ssa.BasicBlock) bool { return b == pz.Block() }); p != nil && !rb[ch.Block()] {
-			okPost = false
-		}
+			return st, ""
+		}}
+		return t.run(fn, 0)
 	}
-	okForm2 := false
-	for _, s := range rebase {
-		vt := normT(res.Of(s.(*ssa.Store).Val).String())
-		if strings.HasPrefix(vt, "sdk.Dec.MulInt64(") && strings.Contains(vt, ".AccRewardPerByte.Amount,") && strings.HasSuffix(vt, ".TotalStorage)") {
-			okForm2 = true
-		}
+	r1, r2 := run(1), run(2)
+	if r1.bad == "" && r2.bad == "" && (r1.counts["change"] == 0 || r1.counts["persist"] == 0) {
+		r.Undecide("T-settle", core.Key("T-settle", fnName, "sites"), r.P.FuncPos(fn), fmt.Sprintf("expected a change of Pledge.TotalStorage and a SetPledge under %s (found %d, %d)", fnName, r1.counts["change"], r1.counts["persist"]))
+		return
 	}
-	if okPost && okForm2 {
-		r.Discharge("T-settle", key2, r.P.Pos(ch.Pos()), "RewardDebt.Amount := Acc*TotalStorage' between the change and SetPledge")
+	pos := func(x *tsResult) string {
+		if x.badAt != nil {
+			return r.P.Pos(x.badAt.Pos())
+		}
+		return r.P.FuncPos(fn)
+	}
+	key := core.Key("T-settle", fnName, "pending reward settled before the capacity changes")
+	if r1.bad == "" && (r1.counts["settle"]+r1.counts["zerocap"] > 0 || r2.bad != "") {
+		r.Discharge("T-settle", key, r.P.FuncPos(fn), "Reward.Amount += Acc*TotalStorage − RewardDebt on every path to the change (or the pledge had no capacity)")
 	} else {
-		r.Violate("T-settle", key2, r.P.Pos(ch.Pos()), "after Pledge.TotalStorage changes the reward debt is not re-based (RewardDebt := Acc×TotalStorage') before the pledge is persisted: later settlements pay for capacity that was not pledged (or withhold what was)")
+		r.Violate("T-settle", key, pos(r1), "Pledge.TotalStorage is changed on a path that has not first settled the pending reward at the old capacity (Reward += Acc×TotalStorage − RewardDebt): the provider's accrued share is computed with the wrong capacity")
+	}
+	key2 := core.Key("T-settle", fnName, "reward debt re-based after the capacity changes")
+	if r2.bad == "" && (r2.counts["rebase"] > 0 || r1.bad != "") {
+		r.Discharge("T-settle", key2, r.P.FuncPos(fn), "RewardDebt.Amount := Acc*TotalStorage' between the change and SetPledge")
+	} else {
+		r.Violate("T-settle", key2, pos(r2), "after Pledge.TotalStorage changes the reward debt is not re-based (RewardDebt := Acc×TotalStorage') before the pledge is persisted: later settlements pay for capacity that was not pledged (or withhold what was)")
 	}
 }
 
